@@ -47,6 +47,14 @@ SET_METHODS = {'union', 'intersection', 'difference',
 FS_LISTERS = {'iterdir', 'listdir', 'glob', 'rglob', 'scandir', 'walk'}
 
 
+def frozen(labels):
+    """a *list* whose order came from a set: the order is frozen into the
+    value (a set that is still a set can be sorted by whoever serialises
+    it; a list made from it cannot).  Marked with a label of its own that
+    ordinary sinks ignore."""
+    return frozenset(('FROZEN', l[1]) for l in labels if l[0] == 'HASH')
+
+
 class AV(object):
     """kord: labels on the key (insertion) order of a dict, or of dicts
     nested in this value; they become `ord` when the dict is iterated or
@@ -401,7 +409,7 @@ class _FnState(object):
             if id(lp) in skip:
                 continue
             labs |= self.ev(lp.iter, env).iter_ord
-        return frozenset(labs)
+        return frozenset(l for l in labs if l[0] != 'FROZEN')
 
     def _loops_enclosing_creation(self, name, stmt, loops):
         """ids of the loops (among `loops`) that also enclose every
@@ -612,14 +620,19 @@ class _FnState(object):
             self._bind_target(g.target, tv, env2, g.iter)
             for c in g.ifs:
                 val |= self.ev(c, env2).val
+        nested = EMPTY
         if isinstance(e, ast.DictComp):
-            val |= self.ev(e.key, env2).val | self.ev(e.value, env2).val
+            vav = self.ev(e.value, env2)
+            val |= self.ev(e.key, env2).val | vav.val
+            # the order inside the values (lists stored per key) is
+            # lumped into the table, as for `d[k] = v`
+            nested = vav.ord
         else:
             val |= self.ev(e.elt, env2).val
         if kind == 'set':
             return AV('set', EMPTY, val)
         if kind == 'dict':
-            return AV('dict', EMPTY, val, ordl)
+            return AV('dict', nested, val, ordl)
         return AV(kind, ordl, val)
 
     def _iter_elem(self, it_expr, it_av):
@@ -765,9 +778,11 @@ class _FnState(object):
             if nm in ('list', 'tuple', 'array', 'asarray', 'iter',
                       'enumerate', 'reversed'):
                 src = avs[0] if avs else recv
+                fz = frozen(src.ord | src.kord) if nm in (
+                    'list', 'tuple', 'array', 'asarray') else EMPTY
                 if src.kind == 'dict':
-                    return AV('seq', src.ord | src.kord, src.val)
-                return AV('seq', src.ord, src.val, src.kord)
+                    return AV('seq', src.ord | src.kord | fz, src.val)
+                return AV('seq', src.ord | fz, src.val, src.kord)
             return AV(k, allv.ord | recv.ord, allv.val | recv.val,
                       allv.kord | recv.kord)
         # package functions
@@ -867,6 +882,22 @@ class _FnState(object):
             for av in binding.values():
                 allv = allv.join(av)
             ret = AV('unk', allv.ord, allv.val, allv.kord)
+            # a taxonomy is serialised into every stage's output; sets in
+            # it are sorted by the serialiser, lists are written as they
+            # are: a tree must not be built from a list whose order was
+            # frozen from a set
+            if callee.cls is not None and callee.cls.name == 'TaxonomyTree':
+                fz = {('HASH', l[1]) for l in (allv.ord | allv.val
+                                                | allv.kord)
+                      if l[0] == 'FROZEN'}
+                if fz:
+                    self._sink(frozenset(fz), call,
+                               'taxonomy tree (serialised into the '
+                               'outputs)')
+                elif not self.reporting:
+                    self._sink(allv.ord | allv.val | allv.kord, call,
+                               'taxonomy tree (serialised into the '
+                               'outputs)')
         # sinks inside the callee reached by our arguments
         if self.reporting:
             for (i, which, desc, site, sfi) in s.param_sinks:
@@ -1045,6 +1076,28 @@ class _FnState(object):
             tv = AV('unk', it.ord if it.kind == 'seq' and self._nested_seq(
                 s.iter) else EMPTY, it.val)
             self._bind_target(s.target, tv, out, s.iter)
+            # `for k in T[..]: T[..][k].sort()` puts every element list of
+            # the table in order; with no element there is nothing whose
+            # order could be frozen either
+            if len(s.body) == 1 and isinstance(s.body[0], ast.Expr) \
+                    and isinstance(s.body[0].value, ast.Call) \
+                    and isinstance(s.body[0].value.func, ast.Attribute) \
+                    and s.body[0].value.func.attr == 'sort' \
+                    and not s.body[0].value.keywords:
+                b = s.body[0].value.func.value
+                while isinstance(b, ast.Subscript):
+                    b = b.value
+                if isinstance(b, ast.Name) and b.id in out and any(
+                        isinstance(x, ast.Name) and x.id == b.id
+                        for x in ast.walk(s.iter)):
+                    old_ = out[b.id]
+
+                    def _drop(ls):
+                        return frozenset(l for l in ls
+                                         if l[0] != 'FROZEN')
+                    out[b.id] = AV(old_.kind, _drop(old_.ord),
+                                   _drop(old_.val), _drop(old_.kord),
+                                   old_.fields)
             # a loop that can stop early (break / return) makes everything
             # it defines depend on the visiting order
             if it.ord and _has_early_exit(s):
@@ -1391,8 +1444,26 @@ class _FnState(object):
                 for a in v.args:
                     allv = allv.join(self.ev(a, env))
                 out[name] = AV('seq' if old.kind == 'unk' else old.kind,
-                               old.ord | lo | allv.ord, old.val | allv.val,
+                               old.ord | lo | frozen(lo) | allv.ord,
+                               old.val | allv.val,
                                old.kord | allv.kord)
+                return
+        if isinstance(f, ast.Attribute) and f.attr == 'sort' \
+                and isinstance(f.value, ast.Subscript) and not any(
+                    k.arg == 'key' for k in v.keywords):
+            # table[a][b].sort(): the element lists of the table are put
+            # in order (the loops that do this visit every element); the
+            # frozen-order labels lumped into the table are cleared
+            b = f.value
+            while isinstance(b, ast.Subscript):
+                b = b.value
+            if isinstance(b, ast.Name) and b.id in env:
+                old = env[b.id]
+
+                def drop(ls):
+                    return frozenset(l for l in ls if l[0] != 'FROZEN')
+                out[b.id] = AV(old.kind, drop(old.ord), drop(old.val),
+                               drop(old.kord), None)
                 return
         if isinstance(f, ast.Attribute) and isinstance(f.value, ast.Name):
             name = f.value.id
@@ -1404,7 +1475,7 @@ class _FnState(object):
                 allv = allv.join(a)
             if f.attr in ('append', 'insert'):
                 out[name] = AV('seq' if old.kind == 'unk' else old.kind,
-                               old.ord | lo | allv.ord,
+                               old.ord | lo | frozen(lo) | allv.ord,
                                old.val | allv.val,
                                old.kord | allv.kord)
                 return
